@@ -91,6 +91,10 @@ pub struct VLogInner {
     pub record_only: bool,
     pub ranges: [(u64, u64); 2],
     pub nranges: usize,
+    /// the peer match indexes handed to the last `calculate_majority_matched_index` call (before self is added)
+    pub maj_arg: [u64; 4],
+    pub maj_n: usize,
+    pub maj_calls: u32,
 }
 #[derive(Debug)]
 pub struct VLog {
@@ -110,6 +114,9 @@ impl VLog {
                 record_only: false,
                 ranges: [(0, 0); 2],
                 nranges: 0,
+                maj_arg: [0; 4],
+                maj_n: 0,
+                maj_calls: 0,
             }),
         }
     }
@@ -263,24 +270,40 @@ impl RaftLog for VLog {
         std::mem::forget(e);
         Ok(last)
     }
-    fn calculate_majority_matched_index(&self, current_term: u64, commit_index: u64, mut m: Vec<u64>) -> Option<u64> {
-        // reference: largest N >= commit with a strict majority (self included) holding N, term(N)=current
-        m.push(self.last_entry_id());
+    fn calculate_majority_matched_index(&self, current_term: u64, commit_index: u64, m: Vec<u64>) -> Option<u64> {
+        // reference: largest N >= commit with a strict majority (self included) holding N, term(N)=current.
+        // The argument is recorded so harnesses can check WHO was counted.
         let n = m.len();
+        assert!(n <= 4, "VLog model: at most 4 peers");
+        {
+            let g = self.i.m();
+            g.maj_calls += 1;
+            g.maj_n = n;
+            let mut k = 0;
+            while k < 4 {
+                g.maj_arg[k] = if k < n { m[k] } else { 0 };
+                k += 1;
+            }
+        }
+        let mine = self.last_entry_id();
+        let total = n + 1;
+        let at = |k: usize| -> u64 { if k < n { m[k] } else { mine } };
         let mut best: Option<u64> = None;
         let mut k = 0;
-        while k < n {
-            let cand = m[k];
-            let mut cnt = 0;
-            let mut j = 0;
-            while j < n {
-                if m[j] >= cand {
-                    cnt += 1;
+        while k < 5 {
+            if k < total {
+                let cand = at(k);
+                let mut cnt = 0;
+                let mut j = 0;
+                while j < 5 {
+                    if j < total && at(j) >= cand {
+                        cnt += 1;
+                    }
+                    j += 1;
                 }
-                j += 1;
-            }
-            if cnt * 2 > n && best.map_or(true, |b| cand > b) {
-                best = Some(cand);
+                if cnt * 2 > total && best.map_or(true, |b| cand > b) {
+                    best = Some(cand);
+                }
             }
             k += 1;
         }
